@@ -22,8 +22,11 @@ FUNCS = {
         "ge25519_add_precomp", "ge25519_sub_precomp", "ge25519_p3_add", "ge25519_p3_sub", "ge25519_cmov", "ge25519_cmov_cached", "ge25519_cmov8", "ge25519_cmov8_base",
         "ge25519_cmov8_cached", "ge25519_scalarmult", "ge25519_scalarmult_base", "slide_vartime", "ge25519_double_scalarmult_vartime", "ge25519_mul_l",
         "ge25519_is_on_curve", "ge25519_is_on_main_subgroup", "ge25519_has_small_order", "ge25519_tobytes", "ge25519_p3_tobytes", "ge25519_frombytes",
-        "ge25519_frombytes_negate_vartime", "equal", "negative"],
-    "crypto_core/ed25519/core_ed25519.c": ["crypto_core_ed25519_add", "crypto_core_ed25519_sub"],
+        "ge25519_frombytes_negate_vartime", "equal", "negative",
+        "fe25519_sqmul", "fe25519_cneg", "fe25519_abs", "fe25519_unchecked_sqrt", "fe25519_sqrt", "fe25519_notsquare", "ge25519_mont_to_ed", "ge25519_xmont_to_ymont",
+        "ge25519_clear_cofactor", "ge25519_elligator2", "ge25519_from_uniform", "fe25519_reduce64", "ge25519_from_hash", "ristretto255_sqrt_ratio_m1", "ristretto255_is_canonical",
+        "ristretto255_frombytes", "ristretto255_p3_tobytes", "ristretto255_elligator", "ristretto255_from_hash"],
+    "crypto_core/ed25519/core_ed25519.c": ["crypto_core_ed25519_add", "crypto_core_ed25519_sub", "crypto_core_ed25519_from_uniform", "crypto_core_ed25519_random"],
     "crypto_pwhash/argon2/argon2-core.c": ["load_block", "store_block", "argon2_finalize", "argon2_fill_memory_blocks", "argon2_fill_first_blocks", "argon2_initial_hash", "argon2_initialize"],
     "crypto_pwhash/argon2/argon2-core.h": ["init_block_value", "copy_block", "xor_block", "index_alpha"],
     "crypto_pwhash/argon2/argon2.c": ["argon2_ctx"],
@@ -34,6 +37,7 @@ FUNCS = {
 }
 # whole files (macro headers that are #included into a function body, generic code instantiated by several backends): name "*"
 WHOLE = {
+    "C07": ["crypto_core/ed25519/ref10/fe_51/constants.h", "crypto_core/ed25519/core_ristretto255.c", "crypto_scalarmult/ristretto255/ref10/scalarmult_ristretto255_ref10.c"],
     "C08": ["crypto_pwhash/argon2/blamka-round-ref.h", "crypto_pwhash/argon2/argon2-fill-block-ref.c", "crypto_pwhash/argon2/blake2b-long.c",
             "crypto_pwhash/scryptsalsa208sha256/nosse/pwhash_scryptsalsa208sha256_nosse.c", "crypto_pwhash/scryptsalsa208sha256/pbkdf2-sha256.c"],
     "C01": ["crypto_aead/aegis128l/aegis128l_common.h", "crypto_aead/aegis128l/aegis128l_soft.c", "crypto_aead/aegis256/aegis256_common.h", "crypto_aead/aegis256/aegis256_soft.c",
@@ -42,7 +46,9 @@ WHOLE = {
     "C03": ["crypto_stream/chacha20/dolbeau/u0.h", "crypto_stream/chacha20/dolbeau/u1.h", "crypto_stream/chacha20/dolbeau/u4.h", "crypto_stream/chacha20/dolbeau/u8.h",
             "crypto_stream/chacha20/dolbeau/chacha20_dolbeau-avx2.c", "crypto_stream/chacha20/dolbeau/chacha20_dolbeau-ssse3.c"],
 }
-OWNER = {"load_block": "C08", "store_block": "C08", "argon2_": "C08", "init_block_value": "C08", "copy_block": "C08", "xor_block": "C08", "index_alpha": "C08",
+OWNER = {"fe25519_sqmul": "C07", "fe25519_cneg": "C07", "fe25519_abs": "C07", "fe25519_unchecked_sqrt": "C07", "fe25519_sqrt": "C07", "fe25519_notsquare": "C07", "fe25519_reduce64": "C07",
+         "ge25519_mont_to_ed": "C07", "ge25519_xmont_to_ymont": "C07", "ge25519_clear_cofactor": "C07", "ge25519_elligator2": "C07", "ge25519_from_uniform": "C07", "ge25519_from_hash": "C07",
+         "ristretto255": "C07", "crypto_core_ed25519_from_uniform": "C07", "crypto_core_ed25519_random": "C07", "load_block": "C08", "store_block": "C08", "argon2_": "C08", "init_block_value": "C08", "copy_block": "C08", "xor_block": "C08", "index_alpha": "C08",
          "crypto_pwhash_scryptsalsa208sha256_ll": "C08", "poly1305": "C04", "fe25519_pow22523": "C06", "fe25519": "C05", "crypto_scalarmult": "C05", "has_small_order": "C05", "ge25519": "C06", "slide_vartime": "C06",
          "equal": "C06", "negative": "C06", "crypto_core_ed25519": "C06"}
 
@@ -87,7 +93,7 @@ def changed(repo, prop=None):
     for k, v in pins.items():
         fn = k.split(":")[1]
         owner = fn[1:] if fn.startswith("*") else ("C10" if "fe_25_5" in k else next((o for pre, o in OWNER.items() if fn.startswith(pre)), None))
-        if prop and owner != prop:
+        if prop and owner not in prop.split(","):
             continue
         if cur.get(k) != v:
             res.append((k, v, cur.get(k)))
